@@ -16,6 +16,10 @@ CHECKS = {
    technique="exhaustive input enumeration: all token sequences <= 4/5 over a 45-lexeme alphabet x all {space,LF} layouts + single-gap deviations, differential against the goja ECMAScript parser (tree-shape comparison)",
    text="Every token sequence up to the bound in every space/line-feed layout (plus single deviations to other gap kinds) that the reference ECMAScript parser accepts as a subset-only program is parsed by xjs; acceptance and tree shape (statement structure, precedence, associativity, ASI boundaries) must coincide. Complete small scope: every subset program of <= n tokens over the alphabet is compared, which is what precedence/ASI table edits cannot escape.",
    note="trusted: goja parser + AST-to-shape mapping (xmc/ref/shape.go); domain restrictions D1-D5; one lexeme per literal kind, two identifiers"),
+ "C03": dict(cat="exploration", sec="4 C03",
+   technique="exhaustive enumeration of programmatic ast trees: every chain of <= 3 (constructor, operand position) contexts x 9 leaves x 3 placements x 3 printers, print -> re-parse -> shape comparison -> re-print fixed point",
+   text="Every parent/child/grand-child operator combination and operand side is built as a real ast tree without grouping nodes, printed by the real printers, re-parsed by the real parser and compared with the tree it came from, then printed again and compared byte for byte. Parser-produced trees never reach the parenthesisation branches; this enumeration reaches every one of them.",
+   note="trusted: harness tree -> ast builder (props/build.go), shape mapping; depth 3; xjs parser as reader (its conformance is C02's subject)"),
  "C09": dict(cat="model_checking", sec="4 C09",
    technique="explicit-state exploration: all builder call histories <= depth 5/6 (stateless) + BFS with abstract-state dedup to depth 7/9, real SourceMapper vs list model, independent VLQ decoder",
    text="Every operation history up to the bound over a 25-call alphabet is executed on the real builder in lock-step with a reference model and the emitted mappings are decoded by an independent Source Map v3 decoder; every VLQ delta in [-2^20,2^20] is encoded through the public API and decoded. Exhaustive within the bound, which is where delta-reset, name carry-over and continuation-bit bugs live.",
